@@ -114,6 +114,28 @@ pub fn drive(
 }
 
 
+/// Prints a line to the standard output. Unlike `println!`,
+/// a failure to write is reported as an error instead of a panic.
+fn print_line(
+	report: &mut diagn::Report,
+	text: &str)
+	-> Result<(), ()>
+{
+	use std::io::Write;
+
+	let mut stdout = std::io::stdout();
+
+	if writeln!(stdout, "{}", text).is_err() ||
+		stdout.flush().is_err()
+	{
+		report.error("could not write to the standard output");
+		return Err(());
+	}
+
+	Ok(())
+}
+
+
 fn assemble_with_command(
 	report: &mut diagn::Report,
 	fileserver: &mut dyn util::FileServer,
@@ -122,13 +144,13 @@ fn assemble_with_command(
 {
 	if command.show_help
 	{
-		print_usage(command.use_colors);
+		print_usage(report, command.use_colors)?;
 		return Ok(asm::AssemblyResult::new());
 	}
 
 	if command.show_version
 	{
-		print_version_full();
+		print_version_full(report)?;
 		return Ok(asm::AssemblyResult::new());
 	}
 
@@ -140,11 +162,13 @@ fn assemble_with_command(
 
 	if !command.quiet
 	{
-		print_version_short();
+		print_version_short(report)?;
 
 		for filename in &command.input_filenames
 		{
-			println!("assembling `{}`...", filename);
+			print_line(
+				report,
+				&format!("assembling `{}`...", filename))?;
 		}
 	}
 
@@ -177,18 +201,20 @@ fn assemble_with_command(
 			{
 				if !command.quiet
 				{
-					println!("");
+					print_line(report, "")?;
 				}
 
-				println!(
-					"{}",
-					String::from_utf8_lossy(&formatted));
+				print_line(
+					report,
+					&String::from_utf8_lossy(&formatted))?;
 			}
 			else if let Some(ref output_filename) = output_group.output_filename
 			{
 				if !command.quiet
 				{
-					println!("writing `{}`...", &output_filename);
+					print_line(
+						report,
+						&format!("writing `{}`...", &output_filename))?;
 				}
 
 				fileserver.write_bytes(
@@ -202,10 +228,12 @@ fn assemble_with_command(
 
 	if !command.quiet
 	{
-		println!(
-			"resolved in {} iteration{}",
-			iterations_taken,
-			if iterations_taken == 1 { "" } else { "s" });
+		print_line(
+			report,
+			&format!(
+				"resolved in {} iteration{}",
+				iterations_taken,
+				if iterations_taken == 1 { "" } else { "s" }))?;
 	}
 
 	Ok(assembly)
@@ -799,7 +827,10 @@ pub fn format_output(
 }
 
 
-fn print_usage(use_colors: bool)
+fn print_usage(
+	report: &mut diagn::Report,
+	use_colors: bool)
+	-> Result<(), ()>
 {
 	let usage_str = include_str!("usage_help.md");
 	let mut styler = util::StringStyler::new(use_colors);
@@ -852,12 +883,14 @@ fn print_usage(use_colors: bool)
 		}
 	}
 
-	println!("");
-	println!("{}", styler.result);
+	print_line(report, "")?;
+	print_line(report, &styler.result)
 }
 
 
-fn print_version_short()
+fn print_version_short(
+	report: &mut diagn::Report)
+	-> Result<(), ()>
 {
 	let mut version = env!("VERGEN_SEMVER_LIGHTWEIGHT").to_string();
 	if version == "UNKNOWN"
@@ -873,16 +906,20 @@ fn print_version_short()
 	}
 
 
-	println!("{} {} ({}{})",
-		env!("CARGO_PKG_NAME"),
-		version,
-		date,
-		env!("VERGEN_TARGET_TRIPLE"));
+	print_line(
+		report,
+		&format!("{} {} ({}{})",
+			env!("CARGO_PKG_NAME"),
+			version,
+			date,
+			env!("VERGEN_TARGET_TRIPLE")))
 }
 
 
-fn print_version_full()
+fn print_version_full(
+	report: &mut diagn::Report)
+	-> Result<(), ()>
 {
-	print_version_short();
-	println!("https://github.com/hlorenzi/customasm");
+	print_version_short(report)?;
+	print_line(report, "https://github.com/hlorenzi/customasm")
 }
